@@ -916,6 +916,7 @@ func init() {
 			mt := r.t.Underlying().(*types.Map)
 			m, _ := r.load().(*mapV)
 			k := in.rvalAs(asR(a[1]), mt.Key())
+			in.hbMapRead(m, "reflect.Value.MapIndex")
 			v, ok := in.mapGet(m, k)
 			if !ok {
 				return rvalV{}
@@ -930,6 +931,7 @@ func init() {
 				in.goPanicStr("assignment to entry in nil map")
 			}
 			k := in.rvalAs(asR(a[1]), mt.Key())
+			in.hbMapWrite(m, "reflect.Value.SetMapIndex")
 			ev := asR(a[2])
 			if !ev.valid() {
 				for i := range m.keys {
@@ -949,6 +951,7 @@ func init() {
 			mt := r.t.Underlying().(*types.Map)
 			m, _ := r.load().(*mapV)
 			var ks []rvalV
+			in.hbMapRead(m, "reflect.Value.MapKeys")
 			if m != nil {
 				for _, k := range m.keys {
 					ks = append(ks, rvalV{t: mt.Key(), v: k})
